@@ -104,6 +104,17 @@ func run(pass *analysis.Pass) (any, error) {
 				Args: []ast.Expr{replacement},
 			}
 		}
+		switch replacement.(type) {
+		case *ast.BinaryExpr, *ast.UnaryExpr:
+			// The call was a single operand. If it is the operand of another operator, the expansion has to remain
+			// one, or 'a / math.Pow(b, 2)' would turn into 'a / b * b'.
+			if path, _ := astutil.PathEnclosingInterval(code.File(pass, node), node.Pos(), node.End()); len(path) > 1 {
+				switch path[1].(type) {
+				case *ast.BinaryExpr, *ast.UnaryExpr:
+					replacement = &ast.ParenExpr{X: replacement}
+				}
+			}
+		}
 		report.Report(pass, node, "could expand call to math.Pow",
 			report.Fixes(edit.Fix("Expand call to math.Pow", edit.ReplaceWithNode(pass.Fset, node, replacement))))
 	}
